@@ -780,6 +780,7 @@ func (e *env) setup() (main []*explore.Node, at1009 *explore.Node, f *explore.Fa
 	mid := &explore.Node{Ctx: ctx, Ghost: g.Clone()}
 	ctx = world.Fork(ctx)
 	// second initial node: staggered expiries v0,v1: 3009, v2: 3011, v3: 3010
+	g0 := g.Clone().(*ghost)
 	ctxB, gB := world.Fork(mid.Ctx), g.Clone().(*ghost)
 	if f := e.advance(&ctx, g, 1990); f != nil {
 		return nil, nil, f
@@ -801,6 +802,19 @@ func (e *env) setup() (main []*explore.Node, at1009 *explore.Node, f *explore.Fa
 		return nil, nil, f
 	}
 	main = append(main, &explore.Node{Ctx: ctxB, Ghost: gB, Path: []string{"<staggered>"}})
+	// third initial node: v3 jailed through the slashing keeper in block 2990
+	// (unbonding since), keep-alives expiring at 3009
+	ctxC, gC := world.Fork(mid.Ctx), g0.Clone().(*ghost)
+	if f := e.advance(&ctxC, gC, 1981); f != nil {
+		return nil, nil, f
+	}
+	if f := e.sjail(&ctxC, gC, 3); f != nil {
+		return nil, nil, f
+	}
+	if f := e.advance(&ctxC, gC, 9); f != nil {
+		return nil, nil, f
+	}
+	main = append(main, &explore.Node{Ctx: ctxC, Ghost: gC, Path: []string{"<v3-jailed>"}})
 	return main, mid, nil
 }
 
@@ -992,7 +1006,7 @@ func setRule(r *report.Run) {
 	if r.Thorough() {
 		depth, ldepth = "4 (5 for the (60,20,10,10) jobs with the 0x2c address in the 10 % slot, 6 for the three jobs of the byte-0 address group)", "4"
 	}
-	r.Rule = fmt.Sprintf("per (address set of 4 operator addresses, stake vector): BFS to depth %s from two initial nodes at block 2999 (keep-alives expiring at 3009, resp. staggered 3009/3009/3011/3010) and, for the multi-comma and keyed jobs, to depth %s from ladder seeds (v3 jailed 1..k times in succession, k <= 4 or 6) over KeepAlive(v,{min,below,above}) through the real message server (signed txs for the keyed runs), Jail(v) (valset keeper), SJail(v) (slashing keeper), Unjail(v) (slashing keeper as MsgUnjail), Adv1, AdvTo10 (through the next liveness check), Adv31, Adv2000 (at most 1 (thorough 2) per path, among the first 2 (thorough 4) operations), SJail for v0,v1 only in quick, RaiseMin/LowerMin/SchedRaise through the valset governance handler; every block runs the staking end-blocker, the valset EndBlock and the valset BeginBlock of the real application and the oracle; address sets: base 0x55*20 with byte p set to 0x00/0xff/0x2b/0x2c plus multi-comma addresses, two slot rotations; stake vectors (60,20,10,10),(30,30,30,10),(1,1,1,1) x 10^6 ugrain", depth, ldepth)
+	r.Rule = fmt.Sprintf("per (address set of 4 operator addresses, stake vector): BFS to depth %s from three initial nodes at block 2999 (keep-alives expiring at 3009; staggered 3009/3009/3011/3010; v3 jailed since block 2990) and, for the multi-comma and keyed jobs, to depth %s from ladder seeds (v3 jailed 1..k times in succession, k <= 4 or 6) over KeepAlive(v,{min,below,above}) through the real message server (signed txs for the keyed runs), Jail(v) (valset keeper), SJail(v) (slashing keeper), Unjail(v) (slashing keeper as MsgUnjail), Adv1, AdvTo10 (through the next liveness check), Adv31, Adv2000 (at most 1 (thorough 2) per path, among the first 2 (thorough 4) operations), SJail for v0,v1 only in quick, RaiseMin/LowerMin/SchedRaise through the valset governance handler; every block runs the staking end-blocker, the valset EndBlock and the valset BeginBlock of the real application and the oracle; address sets: base 0x55*20 with byte p set to 0x00/0xff/0x2b/0x2c plus multi-comma addresses, two slot rotations; stake vectors (60,20,10,10),(30,30,30,10),(1,1,1,1) x 10^6 ugrain", depth, ldepth)
 	r.Assumptions = []string{
 		"block time fixed at 2 s; only the staking end-blocker and the valset begin/end-block run per block (the other modules' end-blockers do not touch keep-alive, grace or jail-log state)",
 		"keep-alive boundary: a validator must be jailed only at checks with height > aliveUntil and must never be jailed at checks with height < aliveUntil; height == aliveUntil is left open (weaker reading of 'longer than the lifetime')",
